@@ -226,6 +226,17 @@ def medium_items(ctx):
                              ("zstd auto min=200000 max=10485760", "cfg comp=2 manual=0 max=10485760 min=200000")):
             for sg in ("whole", "32768"):
                 items.append(("%s/%d %s seg=%s" % (kind, len(content), cname, sg), cline, content, segmentation(len(content), sg), "32768"))
+    # sizes beyond 32 bits: the options take a ssize_t.  Either the value is refused or it means what it says
+    content = gen("rand", 20000, ctx.seed)
+    for cname, cline in (("none manual min=500 max=1000 then max=2^32+100", "cfg comp=0 manual=1 max=1000 min=500 max2=4294967396"),
+                         ("none auto min=500 max=1000 then max=2^32+100", "cfg comp=0 manual=0 max=1000 min=500 max2=4294967396"),
+                         ("none manual max=2^32", "cfg comp=0 manual=1 max=4294967296"),
+                         ("zstd manual max=2^31", "cfg comp=2 manual=1 max=2147483648"),
+                         ("none auto max=2^32+9000", "cfg comp=0 manual=0 max=4294976296"),
+                         ("none manual max=2^33 min=2^32+1", "cfg comp=0 manual=1 max=8589934592 min=4294967297"),
+                         ("zstd auto max=2^63-1", "cfg comp=2 manual=0 max=9223372036854775807")):
+        for sg in ("whole", "4096"):
+            items.append(("rand/%d %s seg=%s" % (len(content), cname, sg), cline, content, segmentation(len(content), sg), "32768"))
     return items
 
 
